@@ -292,7 +292,7 @@ def lemma_root_min(heap, n, k):
     ensures=[],
     modifies=['Node.load', 'Node.index', 'Node.downq', 'Node.g_inq', 'Node.g_rank', 'Node.g_out', 'list[Node]',
               'HeapBalancerSink._downq', 'HeapBalancerSink._size', 'deque[tuple[any,any]]',
-              'dict[str,any]', 'Channel.state', 'list[bool]'],
+              'Props.endpoint', 'Props.has_endpoint', 'Channel.state', 'list[bool]'],
     allocates=True,
     ghost=[
       {'after': 'n = self.__Get()', 'do': [
@@ -310,7 +310,7 @@ def lemma_root_min(heap, n, k):
       {'after': 'channel = n.channel', 'do': [
         'prove(old(self._size) != 0, "member-chosen-when-non-empty")',
         'prove(channel == n.channel and n.g_out == g_sel_out + 1, "dispatch-accounted")',
-        'prove(msg.properties["__Endpoint"] == n.endpoint, "endpoint-stamped")',
+        'prove(msg.properties["__Endpoint"] == n.endpoint and ("__Endpoint" in msg.properties), "endpoint-stamped")',
         'prove(len(sink_stack._stack) == old(len(sink_stack._stack)) + 1 and sink_stack._stack[len(sink_stack._stack) - 1][0] == self, "release-pushed")',
         'prove(HeapInv(self), "invariant-before-forward")',
       ]},
@@ -351,7 +351,7 @@ EXTERNS = {
     params=[('sink_stack', 'ClientMessageSinkStack'), ('msg', 'Message'), ('stream', 'any'), ('headers', 'any')],
     modifies=['Node.load', 'Node.index', 'Node.downq', 'Node.g_inq', 'Node.g_rank', 'Node.g_out', 'list[Node]',
               'HeapBalancerSink._downq', 'HeapBalancerSink._size', 'deque[tuple[any,any]]',
-              'dict[str,any]', 'Channel.state', 'list[bool]'],
+              'Props.endpoint', 'Props.has_endpoint', 'Channel.state', 'list[bool]'],
     allocates=True),
   'ChannelFactory.__call__': dict(params=[], returns='Channel', fresh=True, allocates=True,
                                   notes='functools.partial(next_provider.CreateSink, properties): builds a new member channel; touches no existing object'),
